@@ -134,7 +134,8 @@ Doc(f) ==
   [rate |-> 16000, fperiod |-> 4, nstate |-> f.nstate, gvoff |-> GvOffPats, quoted |-> f.quoted, revhdr |-> (f.shape % 2 = 1),
    dur |-> DurModel(f),
    streams |-> << Stream(f, "MCP", "mcp_", McpVlen(f), WinSet(f.winset), FALSE, McpOpts(f), f.gv, 0),
-                  Stream(f, "LF0", "lf0_", 1, WinSet(f.winset), TRUE, <<>>, f.gv /\ f.salt % 2 = 0, 1) >>
+                  \* salts >= 1000 (used by Gen_Question only): the multi-space stream carries two coefficients per window
+                  Stream(f, "LF0", "lf0_", IF f.salt >= 1000 THEN 2 ELSE 1, WinSet(f.winset), TRUE, <<>>, f.gv /\ f.salt % 2 = 0, 1) >>
               \o (IF f.nstream = 3 THEN << Stream(f, "LPF", "lpf_", 1 + 2 * (f.salt % 2), WinSet(1), FALSE, <<>>, FALSE, 2) >>
                   ELSE <<>>)]
 =============================================================================
